@@ -509,3 +509,90 @@ func (c *Ctx) checkElseIfParsedAsIf(r *Report, rule string) {
 		r.Undecided("%s: no `peek is IF` test found in parseIfExpression", rule)
 	}
 }
+
+// checkStringsPrintedQuoted: rule C02.R12.
+//
+// A string literal is read back by the lexer's escape decoder, so what the printer writes between the quotes
+// has to be the strconv.Quote form on every path (C02.R4 proves the decoder undoes exactly that form). In
+// StringLiteral.PrettyPrint the token text reaches the output only as the result of strconv.Quote: a raw copy
+// "for literals with nothing to escape" writes bytes the lexer does not read back (NUL ends its input).
+func (c *Ctx) checkStringsPrintedQuoted(r *Report, rule string) {
+	fn := c.SSAFn(c.Fn("ast", "StringLiteral.PrettyPrint"))
+	if fn == nil {
+		r.Undecided("%s: ast.StringLiteral.PrettyPrint not found", rule)
+		return
+	}
+	// values that are the literal itself (not its quoted form)
+	raw := map[ssa.Value]bool{}
+	eachInstr(fn, func(in ssa.Instruction) {
+		call, ok := in.(*ssa.Call)
+		if !ok {
+			return
+		}
+		if call.Common().IsInvoke() && call.Common().Method.Name() == "Literal" {
+			raw[call] = true
+			return
+		}
+		if obj := calleeObj(call); obj != nil && obj.Name() == "Literal" {
+			raw[call] = true
+		}
+	})
+	for changed := true; changed; {
+		changed = false
+		eachInstr(fn, func(in ssa.Instruction) {
+			v, ok := in.(ssa.Value)
+			if !ok || raw[v] {
+				return
+			}
+			switch x := in.(type) {
+			case *ssa.MakeInterface:
+				if raw[x.X] {
+					raw[v], changed = true, true
+				}
+			case *ssa.Phi:
+				for _, e := range x.Edges {
+					if raw[e] {
+						raw[v], changed = true, true
+					}
+				}
+			case *ssa.BinOp:
+				if x.Op == token.ADD && (raw[x.X] || raw[x.Y]) {
+					raw[v], changed = true, true
+				}
+			case *ssa.Slice:
+				if raw[x.X] {
+					raw[v], changed = true, true
+				}
+			}
+		})
+	}
+	n, quoted := 0, 0
+	bad := ""
+	eachInstr(fn, func(in ssa.Instruction) {
+		switch x := in.(type) {
+		case *ssa.Store:
+			// into the argument list of a print call
+			if raw[x.Val] {
+				if _, isIA := x.Addr.(*ssa.IndexAddr); isIA {
+					n++
+					bad = c.Pos(x.Pos())
+				}
+			}
+		case *ssa.Call:
+			if obj := calleeObj(x); obj != nil && obj.Pkg() != nil && obj.Pkg().Path() == "strconv" && obj.Name() == "Quote" {
+				quoted++
+			}
+			for _, a := range x.Common().Args {
+				if raw[a] {
+					if obj := calleeObj(x); obj != nil && obj.Pkg() != nil && (obj.Pkg().Path() == "strconv" || obj.Pkg().Path() == "strings") {
+						continue // quoting it, or only looking at it
+					}
+					n++
+					bad = c.Pos(x.Pos())
+				}
+			}
+		}
+	})
+	r.Check(n == 0 && quoted > 0, rule, ssaFuncName(fn), "the text of a string literal is printed through strconv.Quote only", c.Pos(fn.Pos()),
+		"the token text of a string literal reaches the output without strconv.Quote ("+bad+"): a raw NUL, or any byte the lexer treats specially inside a string, is written between the quotes and the formatted program does not parse back to the same tree")
+}
